@@ -90,6 +90,8 @@ def render_ty(ty):
 def render_lit(l):
     k = l[0]
     if k == "int":
+        if len(l) > 2 and l[2] == "hex":          # `0x..` / `-0x..` spelling of the same integer
+            return ("-" if l[1] < 0 else "") + hex(abs(l[1]))
         return str(l[1])
     if k == "dbl":
         return l[1]
@@ -109,7 +111,10 @@ def render_lit(l):
 def render_field(f):
     req = {"required": "required ", "optional": "optional ", "default": ""}[f["req"]]
     d = f" = {render_lit(f['default'])}" if f.get("default") is not None else ""
-    return f"  {f['id']}: {req}{render_ty(f['ty'])} {f['name']}{d},"
+    ann = ""
+    if f.get("ann"):
+        ann = " (" + ", ".join(f'{k} = "{v}"' for k, v in f["ann"].items()) + ")"
+    return f"  {f['id']}: {req}{render_ty(f['ty'])} {f['name']}{d}{ann},"
 
 
 def render(doc):
@@ -282,10 +287,10 @@ def gen_value(items, ty, r, depth, key=False):
     if k == "double":
         return ("dbl", r.choice(SAFE_DBL) if key or r.random() < 0.5 else r.getrandbits(64) if not key else r.choice(SAFE_DBL))
     if k == "string":
-        n = r.choice([0, 1, 2, 3, 5, 9, 30])
+        n = r.choice([0, 1, 2, 3, 5, 9, 30]) if key or r.random() > 0.02 else r.choice([4095, 4096, 4097, 9000])
         return ("bin", bytes(r.choice(b"abcxyz09_ -") for _ in range(n)))
     if k == "binary":
-        n = r.choice([0, 1, 2, 4, 7, 40])
+        n = r.choice([0, 1, 2, 4, 7, 40]) if key or r.random() > 0.02 else r.choice([4095, 4096, 4097, 9000])
         return ("bin", bytes(r.getrandbits(8) for _ in range(n)))
     if k == "uuid":
         return ("uuid", bytes(r.getrandbits(8) for _ in range(16)))
@@ -502,6 +507,44 @@ def reaches(items, name, pred, seen=None):
 
 def reaches_union(items, name):
     return reaches(items, name, lambda it: it["kind"] == "union")
+
+
+def reaches_list(items, name, seen=None):
+    """does the declared type `name` contain a list anywhere (known finding D13 lives in the synchronous list arm)?"""
+    seen = seen if seen is not None else set()
+    if name in seen:
+        return False
+    seen.add(name)
+    it = items[name]
+
+    def ty_has(ty):
+        if ty is None:
+            return False
+        k = ty[0]
+        if k == "list":
+            return True
+        if k == "set":
+            return ty_has(ty[1])
+        if k == "map":
+            return ty_has(ty[1]) or ty_has(ty[2])
+        return k == "ref" and reaches_list(items, ty[1], seen)
+    if it["kind"] == "typedef":
+        return ty_has(it["ty"])
+    if it["kind"] == "enum":
+        return False
+    return any(ty_has(f["ty"]) for f in it["fields"])
+
+
+def with_long_payload(v, n, r):
+    """v with its first string / binary leaf (searched through struct fields) replaced by n bytes; None if there is none"""
+    if v[0] == "bin":
+        return ("bin", bytes(r.choice(b"abcdefgh") for _ in range(n)))
+    if v[0] == "struct":
+        for idx, (i, x) in enumerate(v[1]):
+            y = with_long_payload(x, n, r)
+            if y is not None:
+                return ("struct", v[1][:idx] + [(i, y)] + v[1][idx + 1:])
+    return None
 
 
 def contains_type(items, ty, v, names):
@@ -743,8 +786,8 @@ def schema_sexp(doc):
 
 
 # ----------------------------------------------------------------------------- corpus
-def F(i, name, ty, req="default", default=None):
-    return {"id": i, "name": name, "ty": ty, "req": req, "default": default}
+def F(i, name, ty, req="default", default=None, ann=None):
+    return {"id": i, "name": name, "ty": ty, "req": req, "default": default, "ann": ann}
 
 
 def R(n):
@@ -765,7 +808,10 @@ def fixed_docs():
             F(6, "ids", ("set", ("i64",)), "optional"), F(7, "blob", ("binary",), "optional"), F(8, "id", ("uuid",), "optional"),
             F(9, "d", ("double",), "optional", ("int", 1)), F(10, "rec", R("Outer"), "optional"), F(11, "col", R("Colour")),
             F(12, "ok", ("bool",), "required"), F(13, "small", ("i8",), "optional"), F(14, "mid", ("i16",), "optional"), F(20, "big", ("i64",), "optional"),
-            F(21, "bools", ("list", ("bool",)), "optional"), F(22, "bm", ("map", ("bool",), ("bool",)), "optional")]},
+            F(21, "bools", ("list", ("bool",)), "optional"), F(22, "bm", ("map", ("bool",), ("bool",)), "optional"),
+            F(23, "raw", ("binary",), "optional", ann={"pilota.rust_type": "vec"}), F(24, "owned", ("string",), "optional", ann={"pilota.rust_type": "string"}),
+            F(25, "sorted_ids", ("set", ("i32",)), "optional", ann={"pilota.rust_type": "btree"}), F(26, "sorted_map", ("map", ("string",), ("i32",)), "optional", ann={"pilota.rust_type": "btree"}),
+            F(27, "shared", R("Inner"), "optional", ann={"pilota.rust_wrapper_arc": "true"}), F(28, "raw_req", ("binary",), "default", ann={"pilota.rust_type": "vec"})]},
         {"kind": "exception", "name": "Oops", "fields": [F(1, "why", ("string",))]},
         {"kind": "service", "name": "Svc", "methods": [
             {"name": "get", "ret": R("Outer"), "oneway": False, "args": [F(1, "req", R("Inner")), F(2, "n", ("i32",))], "throws": [F(1, "e", R("Oops"))]},
@@ -781,6 +827,9 @@ def fixed_docs():
                                                       F(6, "dm", ("map", ("string",), ("string",)), "default", ("map", [(("str", "k"), ("str", "v"))])), F(7, "b3", ("bool",), "default", ("int", 0)), F(8, "en", R("Kind"), "optional", ("enum", "Kind", "C"))]},
         {"kind": "union", "name": "Either", "fields": [F(1, "l", R("Leaf")), F(2, "t", R("Tree")), F(5, "n", ("i64",)), F(6, "u", ("uuid",)), F(7, "xs", ("list", ("i32",)))]},
         {"kind": "struct", "name": "Holder", "fields": [F(1, "e", R("Either"), "required"), F(2, "es", ("list", R("Either")), "optional"), F(3, "after", ("i32",), "required")]},
+        # structs that reach a method signature only inside containers are NOT argument types
+        {"kind": "service", "name": "Bulk", "methods": [
+            {"name": "put", "ret": ("list", R("Leaf")), "oneway": False, "args": [F(1, "leaves", ("list", R("Leaf"))), F(2, "by", ("map", ("string",), R("Holder"))), F(3, "ids", ("set", ("i32",)))], "throws": []}]},
     ]})
     # defaults of every literal kind, chosen so that a lossy lowering shows: integers beyond f32 / at the f64 rounding
     # boundary for doubles, lists with adjacent equal elements, struct literals whose keys change under Rust naming
@@ -801,6 +850,8 @@ def fixed_docs():
             F(13, "s1", ("set", ("i32",)), "default", ("list", [("int", 3), ("int", 1), ("int", 2)])),
             F(14, "m1", ("map", ("i32",), ("list", ("i32",))), "optional", ("map", [(("int", 1), ("list", [("int", 2), ("int", 2)]))])),
             F(15, "b1", ("bool",), "default", ("int", 2)), F(16, "bin", ("binary",), "optional", ("str", "a b")),
+            F(17, "h1", ("i32",), "default", ("int", -128, "hex")), F(18, "h2", ("i64",), "optional", ("int", 255, "hex")),
+            F(19, "h3", ("list", ("i16",)), "default", ("list", [("int", -1, "hex"), ("int", 16, "hex"), ("int", -17)])), F(20, "h4", ("double",), "optional", ("int", -32, "hex")),
         ]},
     ]})
     return docs
@@ -882,7 +933,27 @@ OTHER = {"bool": ("i32", 7), "i8": ("i16", 300), "i16": ("i64", 1), "i32": ("bin
          "map": ("struct", [])}
 
 
+def deep_unknown(r):
+    """unknown values with the shapes skippers special-case: a map whose VALUES are structs that hold a struct-typed field, a list of
+    such maps, a struct holding an empty map next to strings, a long payload (both sides of 4096)"""
+    inner = ("struct", [(1, ("i32", 7)), (2, ("struct", [(1, ("bin", b"in")), (3, ("i64", -1))])), (4, ("bin", b"after"))])
+    inner2 = ("struct", [(2, ("struct", [])), (9, ("bool", True))])
+    m = ("map", "i32", "struct", [(("i32", 1), inner), (("i32", 2), inner2)])
+    c = r.randrange(5)
+    if c == 0:
+        return m
+    if c == 1:
+        return ("list", "map", [m, ("map", "i32", "struct", [(("i32", 5), inner2)])])
+    if c == 2:
+        return ("struct", [(1, ("map", "binary", "struct", [(("bin", b"k"), inner)])), (2, ("bin", b"s")), (3, ("map", "i32", "i32", []))])
+    if c == 3:
+        return ("bin", bytes(r.getrandbits(8) for _ in range(r.choice([4088, 4089, 4096, 6000]))))
+    return ("set", "struct", [inner, inner2])
+
+
 def unknown_value(r, depth=2):
+    if depth == 2 and r.random() < 0.12:
+        return deep_unknown(r)
     k = r.choice(["bool", "i8", "i16", "i32", "i64", "dbl", "bin", "uuid", "struct", "list", "set", "map"] if depth > 0 else ["bool", "i32", "bin", "uuid", "dbl"])
     if k == "bool":
         return ("bool", r.random() < 0.5)
@@ -891,16 +962,27 @@ def unknown_value(r, depth=2):
     if k == "dbl":
         return ("dbl", r.getrandbits(64))
     if k == "bin":
-        return ("bin", bytes(r.getrandbits(8) for _ in range(r.choice([0, 1, 5, 20]))))
+        return ("bin", bytes(r.getrandbits(8) for _ in range(r.choice([0, 1, 5, 20]) if r.random() > 0.03 else r.choice([4089, 4096, 5000]))))
     if k == "uuid":
         return ("uuid", bytes(r.getrandbits(8) for _ in range(16)))
     if k == "struct":
         return ("struct", [(r.randrange(1, 50), unknown_value(r, depth - 1)) for _ in range(r.randrange(0, 3))])
+
+    def more_like(e, n):
+        """n values of e's wire type: e itself, then (for structs) other structs, so that elements differ"""
+        out = [e]
+        while len(out) < n:
+            out.append(("struct", [(r.randrange(1, 50), unknown_value(r, max(depth - 2, 0))) for _ in range(r.randrange(0, 3))]) if e[0] == "struct" else e)
+        return out[:n]
     if k in ("list", "set"):
         e = unknown_value(r, depth - 1)
-        return (k, wire_tt(e), [e] * r.randrange(0, 3))
+        return (k, wire_tt(e), more_like(e, r.randrange(0, 4)))
     a, b = unknown_value(r, 0), unknown_value(r, depth - 1)
-    return ("map", wire_tt(a), wire_tt(b), [(a, b)] * r.randrange(0, 2))
+    n = r.randrange(0, 3)
+    keys = [a] if n else []
+    if n == 2 and a[0] in ("i8", "i16", "i32", "i64"):
+        keys.append((a[0], (a[1] + 1) if a[1] < 100 else 0))
+    return ("map", wire_tt(a), wire_tt(b), list(zip(keys, more_like(b, len(keys)))))
 
 
 def retype_elems(v):
